@@ -11,9 +11,15 @@ import (
 // within the run, so that a run's log is a function of (seed, code) only.
 var fileIDRe = regexp.MustCompile(`[0-9]{8}T[0-9]{6}-[0-9]{4}`)
 
+// The POP3 greeting carries the process id and the wall-clock second.
+var pop3BannerRe = regexp.MustCompile(`<[0-9]+\.[0-9]+@`)
+
 func newIDNormaliser() func(string) string {
 	names := map[string]string{}
 	return func(line string) string {
+		if pop3BannerRe.MatchString(line) {
+			line = pop3BannerRe.ReplaceAllString(line, "<pid.time@")
+		}
 		if !fileIDRe.MatchString(line) {
 			return line
 		}
